@@ -25,4 +25,9 @@ def std(pkg, qprop, tprop, fuzz=None, grid_shards_thorough=1, level="exploration
 
 PROPS = {
     "C01": std("c01", 3000, 20000, fuzz=45, grid_shards_thorough=16),
+    "C02": std("c02", 3000, 20000, fuzz=45, grid_shards_thorough=16),
+    "C03": std("c03", 20000, 200000, grid_shards_thorough=16, extra=dict(
+        engine="rapid+grid (release and -tags debug builds)",
+        variants=[dict(name="rel"), dict(name="debug", tags="debug", thorough=dict(prop=50000, prop_shards=16, grid_shards=16, timeout=3600))],
+    )),
 }
